@@ -4,19 +4,24 @@ integer extremes / None; 'mid' leaves room below and above for bounds that
 fall outside everything."""
 
 KEYCODES = {
-    'I': dict(ext=[-2**31, -2**31 + 1, -1, 0, 1, 2, 2**31 - 2, 2**31 - 1],
-              mid=[10, 20, 30, 40, 50, 60, 70, 80], below=-5, above=1000),
-    'L': dict(ext=[-2**63, -2**63 + 1, -2**31 - 1, 0, 1, 2**32, 2**63 - 2, 2**63 - 1],
-              mid=[10, 20, 30, 40, 50, 60, 70, 80], below=-5, above=2**40),
-    'U': dict(ext=[0, 1, 2, 2**31 - 1, 2**31, 2**31 + 1, 2**32 - 2, 2**32 - 1],
-              mid=[10, 20, 30, 40, 50, 60, 70, 80], below=0, above=2**32 - 1),
-    'Q': dict(ext=[0, 1, 2**31, 2**32, 2**63 - 1, 2**63, 2**64 - 2, 2**64 - 1],
-              mid=[10, 20, 30, 40, 50, 60, 70, 80], below=0, above=2**64 - 1),
-    'O': dict(ext=[None, -2**70, -1, 0, 1, 2, 2**31, 2**70],
-              mid=['b', 'd', 'f', 'h', 'j', 'l', 'n', 'p'], below='a', above='z'),
-    'f': dict(ext=[b'\x00\x00', b'\x00\x01', b'\x00\xff', b'\x01\x00', b'a\x00', b'ab',
-                   b'\xff\xfe', b'\xff\xff'],
-              mid=[b'b0', b'd0', b'f0', b'h0', b'j0', b'l0', b'n0', b'p0'],
+    'I': dict(ext=[-2**31, -2**31 + 1, -2**30, -65536, -2, -1, 0, 1, 2, 255, 256, 65535, 65536, 2**30, 2**31 - 2, 2**31 - 1],
+              mid=[10 * i for i in range(1, 17)], below=-5, above=1000),
+    'L': dict(ext=[-2**63, -2**63 + 1, -2**62, -2**32, -2**31 - 1, -1, 0, 1, 2, 2**31, 2**32 - 1, 2**32, 2**33, 2**62,
+                   2**63 - 2, 2**63 - 1],
+              mid=[10 * i for i in range(1, 17)], below=-5, above=2**40),
+    'U': dict(ext=[0, 1, 2, 255, 256, 65535, 65536, 2**30, 2**31 - 2, 2**31 - 1, 2**31, 2**31 + 1, 2**31 + 2**30,
+                   2**32 - 3, 2**32 - 2, 2**32 - 1],
+              mid=[10 * i for i in range(1, 17)], below=0, above=2**32 - 1),
+    'Q': dict(ext=[0, 1, 2, 2**31, 2**32 - 1, 2**32, 2**33, 2**62, 2**63 - 2, 2**63 - 1, 2**63, 2**63 + 1,
+                   2**63 + 2**62, 2**64 - 3, 2**64 - 2, 2**64 - 1],
+              mid=[10 * i for i in range(1, 17)], below=0, above=2**64 - 1),
+    'O': dict(ext=[None, -2**70, -2**63 - 1, -2**31, -1, 0, 1, 2, 3, 255, 2**31, 2**32, 2**63, 2**64, 2**70, 2**71],
+              mid=['b', 'd', 'f', 'h', 'j', 'l', 'n', 'p', 'q', 'r', 's', 't', 'u', 'v', 'w', 'x'],
+              below='a', above='z'),
+    'f': dict(ext=[b'\x00\x00', b'\x00\x01', b'\x00\xff', b'\x01\x00', b'\x01\x01', b'0\x00', b'a\x00', b'ab',
+                   b'ac', b'b\x00', b'\x7f\xff', b'\x80\x00', b'\x80\x01', b'\xff\x00', b'\xff\xfe', b'\xff\xff'],
+              mid=[b'b0', b'd0', b'f0', b'h0', b'j0', b'l0', b'n0', b'p0', b'q0', b'r0', b's0', b't0', b'u0', b'v0',
+                   b'w0', b'x0'],
               below=b'\x00\x00', above=b'\xff\xff'),
 }
 VALCODES = {
